@@ -51,12 +51,27 @@ def finish_case(rng, P, root=None):
     g = gen_dag.rand_data(rng, P.tshape[root], -2, 2)
     q = [f't val {k}' for k in range(nt)] + [f't flags {k}' for k in range(nt)]
     bw = f"t bw {root} {show_ints(P.tshape[root])} {show_floats(g)}"
+    # half of the programs are differentiated from an INTERIOR tensor first (sometimes inside retain_grads), the leaves are then
+    # zeroed: what that call left on non-leaf tensors must not reach the leaves again through the main call
+    req = {}
+    for nd in P.nodes:
+        for t in nd['outs']:
+            req[t] = (nd['rg'] and nd.get('dt', 'f64') != 'i64') if nd['kind'] == 'leaf' else any(req.get(i, False) for i in nd['ins'])
+    interior = [t for t in range(nt) if t != root and req.get(t) and P.nodes[P.owner[t]]['kind'] == 'op']
+    pre = []
+    if interior and rng.chance(.5):
+        t0 = rng.pick(interior)
+        ctx = rng.chance(.3)
+        pre = (['t ctx new rg', 't ctx enter 0'] if ctx else []) + \
+              [f"t bw {t0} {show_ints(P.tshape[t0])} {show_floats(gen_dag.rand_data(rng, P.tshape[t0], -2, 2))}"] + (['t ctx exit 0'] if ctx else []) + \
+              [f't zero {nd["outs"][0]}' for nd in P.nodes if nd['kind'] == 'leaf' and req.get(nd['outs'][0])]
+    bw_lines = pre + [bw]
     after = [f't grad {k}' for k in range(nt)] + [f't flags {k}' for k in range(nt)]
     uses = {}
     for nd in P.nodes:
         for i in nd['ins']:
             uses[i] = uses.get(i, 0) + 1
-    return {'P': P, 'root': root, 'g': g, 'lines': lines + q + [bw] + after,
+    return {'P': P, 'root': root, 'g': g, 'pre': pre, 'lines': lines + q + bw_lines + after,
             'fanout': max(uses.values()) if uses else 0,
             'desc': ' ; '.join(lines + [bw])[:900]}
 
@@ -109,6 +124,8 @@ def compare(c, mo, io):
     for k in range(nt):
         if P.nodes[P.owner[k]]['kind'] == 'leaf':
             a, b = io[base + k], io2[len(lines2) + 1 + k]
+            if b == '-' and c.get('pre') and a != '-' and not np.any(tprog.parse_arr(a)):
+                continue        # a leaf the main call does not reach was zeroed after the preliminary call: zeros, not None
             if not tprog.close_line(a, b):
                 return [(f'leaf t{k} grad under another construction order', a[:200], b[:200])]
     return []
@@ -177,6 +194,8 @@ def oracle(c):
     P = c['P']
     lines, _ = P.lines()
     nt = len(P.tshape)
+    pre = list(c.get('pre') or [])        # the preliminary backward from an interior tensor (+ zeroing of the leaves), if the case has one
+    lines = lines + pre
     prog = lines + [f"t bw {c['root']} {show_ints(P.tshape[c['root']])} {show_floats(c['g'])}"] + [f't grad {k}' for k in range(nt)]
     io = tprog.run_program(prog)
     key = {'ops': sorted({n['name'] for n in P.nodes if n['kind'] == 'op'})}
@@ -201,7 +220,7 @@ def oracle(c):
 
 def _strip(c):
     P = c['P']
-    return {'nodes': P.nodes, 'root': c['root'], 'g': c['g']}
+    return {'nodes': P.nodes, 'root': c['root'], 'g': c['g'], 'pre': c.get('pre') or []}
 
 
 def _unstrip(d):
@@ -221,7 +240,7 @@ def _unstrip(d):
             P2.add_leaf(tuple(nd['shape']), nd['data'], nd['rg'], nd.get('dt', 'f64'))
         else:
             P2.add_op(nd['name'], nd['ins'], nd['args'], [shapes[o] for o in nd['outs']])
-    return {'P': P2, 'root': d['root'], 'g': d['g']}
+    return {'P': P2, 'root': d['root'], 'g': d['g'], 'pre': d.get('pre') or []}
 
 
 def search(rng, tier):
